@@ -19,7 +19,7 @@ ASSUMPTIONS = [
     'reference isotope masses and abundances: pv/refchem.py literals (cross-checked against chem.txt by C02)',
     'lightest-peak and mean clauses: mass view, no pruning option set, elements whose lightest isotope is the most abundant (C,H,N,O,S,P) for the lightest-peak clause',
     'estimate part: averagine ratios C4.9384 H7.7583 N1.3577 O1.4773 S0.0417 (Senko 1995) scaled so that the MONOISOTOPIC mass equals neutral_mass (the library docstring and ISOTOPIC_AVERAGINE_MASS say so)',
-    'tolerances: lightest peak (#elements+1)*10^-resolution; mean 1e-4 + 1e-5*atoms + (#elements+1)*10^-resolution (the library prunes per-element terms below 1e-8, which biases the mean by up to ~5e-6 per atom; no allowance for fractional counts); neutron view vs binned mass view 1e-5 absolute on sum-normalised abundances up to 40 atoms, growing in proportion to the atom count beyond (the same pruning removes more terms from the mass view, which has more distinct keys); exact expansion 1e-6 absolute on sum-normalised abundances',
+    'tolerances: lightest peak half a unit of the resolution (beyond it: the recorded per-element rounding, matched exactly for whole-number compositions); the mean clause keeps (#elements+1)*10^-resolution for that same rounding; mean 1e-4 + 1e-5*atoms + (#elements+1)*10^-resolution (the library prunes per-element terms below 1e-8, which biases the mean by up to ~5e-6 per atom; no allowance for fractional counts); neutron view vs binned mass view 1e-5 absolute on sum-normalised abundances up to 40 atoms, growing in proportion to the atom count beyond (the same pruning removes more terms from the mass view, which has more distinct keys); exact expansion 1e-6 absolute on sum-normalised abundances',
 ]
 
 LIGHT = ['C', 'H', 'N', 'O', 'S', 'P']
@@ -56,6 +56,22 @@ def _pruning_bias(el, n):
 
 
 MEAN_BASE, MEAN_PER_ATOM = 1e-4, 1e-5
+
+
+def _rounded_per_element(comp, got, res, ne):
+    """is `got` the lightest mass one gets by rounding to the resolution after every element block is added (instead of once at the
+    end)?  Exact for whole-number compositions without particles; with fractional counts or particles (added to the finished
+    pattern, unrounded) the accumulated bound of half a unit per element is used"""
+    items = [(k, v) for k, v in comp.items() if v != 0]
+    plain = all(k not in ('e', 'p', 'n') and v == int(v) for k, v in items)
+    if plain:
+        a = b = 0.0
+        for k, v in items:
+            blk = refchem.atom_mass(k, True) * v
+            a = round(a + round(blk, res), res)
+            b = round(b + blk, res)
+        return abs(got - a) <= 1e-9 or abs(got - b) <= 1e-9
+    return abs(got - refchem.comp_mass(dict(items), True)) <= ne * 0.5 * 10 ** (-res) + 1e-9
 
 
 def _explain_mean(comp, d, tol):
@@ -174,13 +190,17 @@ def check_case(case) -> Result:
         mono = refchem.comp_mass({k: v for k, v in comp.items() if v != 0}, True)
         if light_only:
             d = dist[0][0] - mono
-            if abs(d) > ne * 10 ** (-res) + 1e-9:
+            half = 0.5 * 10 ** (-res) + 1e-9
+            if abs(d) > half:
                 if particles and int_formula and abs(d + part_off) <= ne * 10 ** (-res) + 1e-9:
                     sig = 'C14/lightest-peak/particle-offset-ignored-for-integer-formula'
+                elif _rounded_per_element(comp, dist[0][0], res, ne):
+                    # the masses are rounded to the resolution after every element is folded in, not once at the end
+                    sig = 'C14/lightest-peak/masses-rounded-after-every-element'
                 else:
                     sig = 'C14/lightest-peak/wrong'
-                r.fail('lightest peak sits at the monoisotopic mass incl. listed electrons, protons, neutrons', sig,
-                       expected=mono, got=dist[0][0], **ctx)
+                r.fail('lightest peak sits at the monoisotopic mass incl. listed electrons, protons, neutrons (rounded to the resolution)', sig,
+                       expected=mono, got=dist[0][0], resolution=res, **ctx)
         avg = refchem.comp_mass({k: v for k, v in comp.items() if v != 0}, False)
         tot = sum(a for _m, a in dist)
         mean = sum(m * a for m, a in dist) / tot
